@@ -851,8 +851,27 @@ class _NP:
             if not c.in_spec:
                 c.oblige("isin.test_elements_within_the_structural_bound[%s]" % c.fresh_name("isin"), te.shape[0] <= int(bound), kind="domain")
             mm = te.shape[0]
-            return new_array(el.shape, lambda idx: or_(*[and_(t < mm, _numeric(es(*idx)) == _numeric(ts(t))) for t in range(int(bound))]), "b")
-        return new_array(el.shape, lambda idx: or_(*[_numeric(es(*idx)) == _numeric(ts(t)) for t in range(int(m))]) if int(m) else False, "b")
+            out = new_array(el.shape, lambda idx: or_(*[and_(t < mm, _numeric(es(*idx)) == _numeric(ts(t))) for t in range(int(bound))]), "b")
+            out._isin_of = (el, lambda v: or_(*[and_(t < mm, _numeric(v) == _numeric(ts(t))) for t in range(int(bound))]))
+            return out
+        out = new_array(el.shape, lambda idx: or_(*[_numeric(es(*idx)) == _numeric(ts(t)) for t in range(int(m))]) if int(m) else False, "b")
+        out._isin_of = (el, lambda v: or_(*[_numeric(v) == _numeric(ts(t)) for t in range(int(m))]) if int(m) else False)
+        return out
+
+    def argmin(self, a, axis=None):
+        """Index of the FIRST minimum of a 1-D sequence of concrete length."""
+        _use("argmin")
+        a = as_array(a)
+        m = concrete_value(a.shape[0]) if a.ndim == 1 else None
+        if m is None or axis not in (None, 0):
+            raise Unsupported("argmin of an array of symbolic length")
+        vals = [_numeric(a.at(i)) for i in range(int(m))]
+        best = int(m) - 1
+        r = lift(best)
+        for i in range(int(m) - 2, -1, -1):
+            # i wins over every later index if it is <= all later values (first minimum)
+            r = ite(and_(*[vals[i] <= vals[j] for j in range(i + 1, int(m))]), i, r)
+        return lift(r)
 
     def nonzero(self, a):
         return self.where(a)
@@ -890,7 +909,11 @@ class _NP:
                 raise Unsupported("np.where(cond) index form of a rank-%d array" % cond.ndim)
             cs = cond.snapshot()
             mem = (lambda p: cs(p)) if cond.kind == "b" else (lambda p: _numeric(cs(p)) != 0)
-            return (SymIndexArr(SymIndexSet(cond.shape[0], mem, "where")),)
+            iset = SymIndexSet(cond.shape[0], mem, "where")
+            iset.isin_of = getattr(cond, "_isin_of", None)  # (label array, value -> V bool): for the cardinality
+            res = SymIndexArr(iset)
+            ctx().ghost.setdefault("where_index_results", []).append(res)
+            return (res,)
         cond = as_array(cond)
         shape = broadcast_shapes([cond.shape] + [as_array(v).shape for v in (x, y) if _arrish(v)], "where")
         cg = broadcast_getter(cond, shape)
